@@ -188,6 +188,25 @@ CLAIMED = {
         note="webencodings.LABELS is an environment fact; chardet is absent (branch unreachable here).",
         technique="Coq proof (case analysis over the precedence cascade) + translated order/table facts + "
                   "differential correspondence of the prescan transcription + search against the standard's prescan"),
+    "C09": dict(
+        category="proof",
+        text="Theorems for ARBITRARY allow-lists: every output tag has an allowed (namespace, name), comments never "
+             "pass, a disallowed tag becomes exactly one Characters token, other tokens pass unchanged, every output "
+             "attribute is on the attribute list; and the core: for EVERY value kept by the URI gate (unescape, strip "
+             "class, str.lower with CPython's full case table, U+FFFD removal, urlsplit scheme -- all modelled) either "
+             "a browser sees no scheme or the scheme it sees is an allowed protocol (proof: the prefix up to the first "
+             "':' that a browser reads as a scheme survives every stage unchanged; 128-point sweep for the character "
+             "facts). Default-list facts: no raw-text element name, no on* attribute. PARTIAL: data: content type "
+             "only in the sanitizer's own parse; sanitize_css is a parameter (its clause is search-only); urlparse's "
+             "ValueError paths are outside the modelled domain. Model tied by exact-agreement correspondence on "
+             "generated and parsed tokens with default and randomly restricted lists; independent predicates "
+             "(incl. a transcription of the URL standard's scheme parser) run on the real filter's output.",
+        design_ref="DESIGN.md 3 C09",
+        note="Spec/Url.v (browser scheme) is my transcription of the URL standard; regex classes and str.lower are "
+             "environment facts dumped by the translator; a dead branch was noticed (svg_allow_local_href compares "
+             "a str with tuples and never fires) -- not part of the property.",
+        technique="Coq proof (list/filter reasoning, finite ASCII sweep lifted, arbitrary allow-lists as parameters) "
+                  "+ translated tables + differential correspondence"),
 }
 
 PENDING_REASON = "not yet built in this round (planned: Coq model + theorems per DESIGN.md section 3); no check is registered, so nothing is claimed"
